@@ -428,7 +428,8 @@ def execute(record, state):
     hs = cfg.get("hashseed", 0)
     scripts = record["scripts"]
     r = tp.run(hs, {"record": record, "log_events": bool(cfg.get("log_events"))}, timeout=150)
-    faults = {"preemptions": 0, "forced_switch_on_lock": 0, "gc_injected": 0, "starvation_pct": 0, "hashseed_nonzero": 1 if hs else 0}
+    faults = {"preemptions": 0, "forced_switch_on_lock": 0, "gc_injected": 0, "starvation_pct": 0, "hashseed_nonzero": 1 if hs else 0, "publication_handover": 0,
+              "distinct_inputs_streamed": 0}
     probes = {"switch_in_cold_code": 0, "switch_inside_dialect_class_init": 0, "switch_inside_import": 0, "switch_inside_dispatch_build": 0,
               "switch_inside_optimizer_getattr": 0, "parked_on_import_lock": 0, "parked_on_other_lock": 0, "two_threads_same_cold_dialect": 0,
               "publication_switches": 0}
@@ -444,6 +445,8 @@ def execute(record, state):
     faults["preemptions"] = sum(1 for e in r["switch_sites"] if e[1] == "event")
     faults["forced_switch_on_lock"] = r["blocks"]
     faults["gc_injected"] = r["probes"].get("gc_injected", 0)
+    faults["publication_handover"] = r["probes"].get("publication_switches", 0)
+    faults["distinct_inputs_streamed"] = sum(c.get("n", 0) for s_ in scripts for c in s_ if c.get("op") == "bulk")
     if cfg.get("strategy") == "pct" and record.get("schedule") is None:
         faults["starvation_pct"] = 1
     names = [set().union(*[_names(c) for c in s]) if s else set() for s in scripts]
@@ -495,7 +498,8 @@ def execute(record, state):
         "steps": r["steps"],
         "faults": faults,
         "probes": probes,
-        "population": ("serial" if cfg.get("strategy") == "serial" and record.get("schedule") is None else "preemptive") + ("-warm" if cfg.get("warm") else "-cold"),
+        "population": ("sweep-" + cfg["sweep"].split(":")[0]) if cfg.get("sweep") else
+                      ("serial" if cfg.get("strategy") == "serial" and record.get("schedule") is None else "preemptive") + ("-warm" if cfg.get("warm") else "-cold"),
         "situations": sorted(set("%s|%s" % (e[1], e[2]) for e in r["switch_sites"]))[:200],
         "counters": {"threads": len(scripts), "calls": sum(len(s) for s in scripts), "cold_code_objects": r.get("cold_code_objects", 0)},
     }
